@@ -118,7 +118,7 @@ Section Defer.
     unfold load. destruct (is_buffered s oid) eqn:Eb.
     - pose proof (quiet_load_base strat blen s oid) as Q. set (s1 := load_from_buffer_base strat blen s oid) in *.
       destruct strat.
-      + destruct (check_capacity_cases _ blen s1) as [C|C].
+      + destruct (check_capacity_cases Ser blen s1) as [C|C].
         * rewrite C. cbn [fst]. split.
           -- destruct Q as (_ & _ & Q3 & _). pose proof (quiet_update_root s1 oid
                (match nlookup (bo_file (get_obj s oid)) (b_buffer s1) with Some e => Some (e_val e) | None => None end)) as Q'.
@@ -160,10 +160,84 @@ Section Defer.
           destruct (e_mod e); [exact Q|]. eapply quiet_trans; [exact Q|apply quiet_objs; reflexivity].
         - eapply quiet_trans; [apply (quiet_init_entry Shm blen s0 oid true)|apply quiet_objs; reflexivity]. }
       pose proof (quiet_trans _ _ _ Q0 Q1) as Q.
-      destruct (check_capacity_cases _ blen s1) as [C|C].
+      destruct (check_capacity_cases strat blen s1) as [C|C].
       + rewrite C. cbn [fst]. split; [destruct Q as (_ & _ & Q3 & _); lia|intros _ _; exact Q].
       + destruct Q as (_ & _ & Q3 & _). split; [lia|intros _ H; lia].
-    - cbn [fst]. split; [unfold write_disk; prj; lia|intros H; discriminate H].
+    - cbn [fst]. split; [apply le_n|intros H; discriminate H].
+  Qed.
+
+  (* the shape of an operation step *)
+  Definition load2 strat blen (o : nop) (s0 : bstate) (oid : nat) : bstate * option exn :=
+    match o with
+    | OL (LEq _) | OD (DEq _) =>
+        match load strat blen s0 oid with
+        | (s1, Some x) => (s1, Some x)
+        | (s1, None) => load strat blen s1 oid
+        end
+    | _ => load strat blen s0 oid
+    end.
+
+  Lemma bop_unfold strat blen s oid p o :
+    bstep_fn strat blen s (BOp oid p o) =
+    match pre_err o with Some e => (s, BErr e) | None =>
+      if (match p with [] => true | _ => false end) && nop_no_load o then
+        match apply_at p o (data_of s oid) with
+        | None => (s, BBad)
+        | Some (r, d') =>
+            match r with
+            | Err e => (s, BErr e)
+            | Ok _ =>
+                match save strat blen (set_data s oid d') oid with
+                | (s2, Some x) => (s2, BExn x)
+                | (s2, None) => (s2, res_of r)
+                end
+            end
+        end
+      else
+        match load2 strat blen o s oid with
+        | (s1, Some x) => (s1, BExn x)
+        | (s1, None) =>
+            match apply_at p o (data_of s1 oid) with
+            | None => (s1, BBad)
+            | Some (r, d') =>
+                if nop_is_read o then (s1, res_of r)
+                else
+                  match save strat blen (set_data s1 oid d') oid with
+                  | (s2, Some x) => (s2, BExn x)
+                  | (s2, None) => (s2, res_of r)
+                  end
+            end
+        end
+    end.
+  Proof. reflexivity. Qed.
+
+  Lemma load2_defers strat blen o s oid :
+    is_buffered s oid = true ->
+    (b_forced s <= b_forced (fst (load2 strat blen o s oid)))%nat
+    /\ (b_forced (fst (load2 strat blen o s oid)) = b_forced s -> quiet s (fst (load2 strat blen o s oid))).
+  Proof.
+    intros Hb.
+    assert (L1 : (b_forced s <= b_forced (fst (load strat blen s oid)))%nat
+                 /\ (b_forced (fst (load strat blen s oid)) = b_forced s -> quiet s (fst (load strat blen s oid)))).
+    { destruct (load_defers strat blen s oid) as [A B]. split; [exact A|intros H; apply B; [exact Hb|exact H]]. }
+    assert (LL : (b_forced s <= b_forced (fst (match load strat blen s oid with
+                      | (s1, Some x) => (s1, Some x)
+                      | (s1, None) => load strat blen s1 oid
+                      end)))%nat
+                 /\ (b_forced (fst (match load strat blen s oid with
+                      | (s1, Some x) => (s1, Some x)
+                      | (s1, None) => load strat blen s1 oid
+                      end)) = b_forced s -> quiet s (fst (match load strat blen s oid with
+                      | (s1, Some x) => (s1, Some x)
+                      | (s1, None) => load strat blen s1 oid
+                      end)))).
+    { destruct L1 as [A B]. destruct (load strat blen s oid) as [s1 [x|]]; cbn [fst] in *; [auto|].
+      destruct (load_defers strat blen s1 oid) as [A' B']. split; [lia|]. intros H.
+      assert (E1 : b_forced s1 = b_forced s) by lia.
+      specialize (B E1). eapply quiet_trans; [exact B|]. apply B'.
+      - rewrite (quiet_buffered _ _ _ B). exact Hb.
+      - congruence. }
+    unfold load2. destruct o as [[]|[]]; first [exact L1|exact LL].
   Qed.
 
   (* S4 *)
@@ -172,59 +246,22 @@ Section Defer.
     let s' := fst (bstep_fn strat blen s (BOp oid p o)) in
     b_forced s' = b_forced s -> b_files s' = b_files s /\ b_writes s' = b_writes s.
   Proof.
-    intros Hb. cbn [bstep_fn]. cbv zeta.
+    intros Hb. cbv zeta. rewrite bop_unfold.
     destruct (pre_err o); [cbn [fst]; auto|].
     destruct ((match p with [] => true | _ => false end) && nop_no_load o).
     - destruct (apply_at p o (data_of s oid)) as [[r d']|]; [|cbn [fst]; auto].
       destruct r as [v|e]; [|cbn [fst]; auto].
       pose proof (save_defers strat blen (set_data s oid d') oid) as [M Q].
       pose proof (quiet_set_data s oid d') as Q0.
-      destruct (save strat blen (set_data s oid d') oid) as [s2 [x|]]; cbn [fst] in *; intros HF.
-      + assert (Q1 : quiet s s2).
-        { eapply quiet_trans; [exact Q0|]. apply Q.
-          - rewrite (quiet_buffered _ _ _ Q0). exact Hb.
-          - destruct Q0 as (_ & _ & Q3 & _). congruence. }
-        destruct Q1 as (A & B & _). auto.
-      + assert (Q1 : quiet s s2).
-        { eapply quiet_trans; [exact Q0|]. apply Q.
-          - rewrite (quiet_buffered _ _ _ Q0). exact Hb.
-          - destruct Q0 as (_ & _ & Q3 & _). congruence. }
-        destruct Q1 as (A & B & _). auto.
-    - (* the loads *)
-      set (load2 := fun s0 : bstate =>
-                      match o with
-                      | OL (LEq _) | OD (DEq _) =>
-                          match load strat blen s0 oid with
-                          | (s1, Some x) => (s1, Some x)
-                          | (s1, None) => load strat blen s1 oid
-                          end
-                      | _ => load strat blen s0 oid
-                      end).
-      assert (L2 : (b_forced s <= b_forced (fst (load2 s)))%nat
-                   /\ (b_forced (fst (load2 s)) = b_forced s -> quiet s (fst (load2 s)))).
-      { assert (L1 : (b_forced s <= b_forced (fst (load strat blen s oid)))%nat
-                     /\ (b_forced (fst (load strat blen s oid)) = b_forced s -> quiet s (fst (load strat blen s oid)))).
-        { destruct (load_defers strat blen s oid) as [A B]. split; [exact A|intros H; apply B; [exact Hb|exact H]]. }
-        assert (LL : (b_forced s <= b_forced (fst (match load strat blen s oid with
-                          | (s1, Some x) => (s1, Some x)
-                          | (s1, None) => load strat blen s1 oid
-                          end)))%nat
-                     /\ (b_forced (fst (match load strat blen s oid with
-                          | (s1, Some x) => (s1, Some x)
-                          | (s1, None) => load strat blen s1 oid
-                          end)) = b_forced s -> quiet s (fst (match load strat blen s oid with
-                          | (s1, Some x) => (s1, Some x)
-                          | (s1, None) => load strat blen s1 oid
-                          end)))).
-        { destruct L1 as [A B]. destruct (load strat blen s oid) as [s1 [x|]]; cbn [fst] in *; [auto|].
-          destruct (load_defers strat blen s1 oid) as [A' B']. split; [lia|]. intros H.
-          assert (E1 : b_forced s1 = b_forced s) by lia.
-          specialize (B E1). eapply quiet_trans; [exact B|]. apply B'.
-          - rewrite (quiet_buffered _ _ _ B). exact Hb.
-          - congruence. }
-        subst load2. cbv beta. destruct o as [[]|[]]; first [exact L1|exact LL]. }
-      destruct L2 as [A B].
-      destruct (load2 s) as [s1 [x|]]; cbn [fst] in *.
+      assert (G : b_forced (fst (save strat blen (set_data s oid d') oid)) = b_forced s ->
+                  quiet s (fst (save strat blen (set_data s oid d') oid))).
+      { intros H. eapply quiet_trans; [exact Q0|]. apply Q.
+        - rewrite (quiet_buffered _ _ _ Q0). exact Hb.
+        - destruct Q0 as (_ & _ & Q3 & _). congruence. }
+      destruct (save strat blen (set_data s oid d') oid) as [s2 [x|]]; cbn [fst] in *;
+        intros H; destruct (G H) as (Q1 & Q2 & _); auto.
+    - destruct (load2_defers strat blen o s oid Hb) as [A B].
+      destruct (load2 strat blen o s oid) as [s1 [x|]]; cbn [fst] in *.
       + intros H. destruct (B H) as (Q1 & Q2 & _). auto.
       + destruct (apply_at p o (data_of s1 oid)) as [[r d']|].
         2:{ cbn [fst]. intros H. destruct (B H) as (Q1 & Q2 & _). auto. }
